@@ -911,7 +911,11 @@ def param_dimension(p: Param):
 
 def _ann_str(p: Param) -> str:
     a = p.annotation
-    return a if isinstance(a, str) else getattr(a, "__name__", str(a))
+    if isinstance(a, str):
+        return a
+    if getattr(a, "__args__", None):
+        return str(a).replace("typing.", "").replace("<class '", "").replace("'>", "")
+    return getattr(a, "__name__", str(a))
 
 
 def numeric_value(x):
@@ -930,6 +934,8 @@ def numeric_residual(eq, pairs, n_by_base=None, op=""):
     if op == "":
         lhs, rhs = _subst(e.lhs, pairs), _subst(e.rhs, pairs)
         lv, rv = _nval(lhs), _nval(rhs)
+        if any(math.isinf(abs(x)) for x in (lv, rv)):
+            raise Unsupported("non-finite value (overflow) at this point")
         # terms inside each side give the honest scale when a side is 0 (laws written as sum == 0)
         scale = max(abs(lv), abs(rv), _term_scale(lhs), _term_scale(rhs), 1e-300)
         ok = abs(lv - rv) <= REL_TOL * scale
@@ -1390,32 +1396,40 @@ def _prescreen_small(R, pt) -> bool:
 
 
 def _law_satisfiable_at(H, pt) -> bool:
-    """Does the law have a real solution for the result symbol at these argument values?"""
+    """Does the law have a real solution for the result symbol at these argument values?  (numeric; conservative:
+    when no real root is found the point counts as outside the domain, so it is not used as a failing input)"""
+    import cmath
     try:
-        r0 = [s for s in H.free_symbols if s.name == "vf_r0"]
+        r0 = [s for s in sp.sympify(H).free_symbols if s.name == "vf_r0"]
         if not r0:
             return True
         h = numeric_constants(H.xreplace({s: sp.Float(v) for s, v in pt.items()}))
         h = h.xreplace({s: sp.Float(1.0) for s in h.free_symbols if s not in r0})
-        sols = sp.solve(h, r0[0])
-        for so in sols:
-            v = complex(sp.N(so))
-            if abs(v.imag) <= 1e-9 * max(1.0, abs(v.real)):
-                if r0[0].is_positive and v.real <= 0:
-                    continue
+        f = sp.lambdify(r0[0], h, modules=[{"log": cmath.log, "sqrt": cmath.sqrt, "exp": cmath.exp, "sin": cmath.sin,
+                                           "cos": cmath.cos, "tan": cmath.tan, "asin": cmath.asin, "acos": cmath.acos,
+                                           "atan": cmath.atan, "sinh": cmath.sinh, "cosh": cmath.cosh,
+                                           "tanh": cmath.tanh, "acosh": cmath.acosh, "asinh": cmath.asinh,
+                                           "atanh": cmath.atanh}, "math"])
+        grid = [sg * 10 ** (k / 8) for sg in (1, -1) for k in range(-160, 161)] + [0.0]
+        if r0[0].is_positive or r0[0].is_nonnegative:
+            grid = [g for g in grid if g >= 0]
+        grid.sort()
+        prev = None
+        for g in grid:
+            try:
+                v = complex(f(g))
+            except Exception:  # noqa: BLE001
+                prev = None
+                continue
+            if v != v or abs(v.imag) > 1e-9 * max(1.0, abs(v.real)):
+                prev = None
+                continue
+            if v.real == 0 or (prev is not None and (prev < 0) != (v.real < 0)):
                 return True
-        if not sols:
-            # solve() found nothing symbolic: try a numeric root search from a few starts
-            for x0 in (0.5, 1.0, 3.0, -1.0):
-                try:
-                    v = sp.nsolve(h, r0[0], x0)
-                    if abs(sp.im(v)) < 1e-9:
-                        return True
-                except Exception:
-                    pass
+            prev = v.real
         return False
-    except Exception:
-        return True
+    except Exception:  # noqa: BLE001
+        return False
 
 
 def _wants_int(p: Param) -> bool:
